@@ -70,6 +70,12 @@ CLAIMS.update({
    note="the property is violated today (known findings D9); the check detects new storing sites / deliberate leaks, not heap equality itself", ref="4/C14"),
 })
 
+CLAIMS.update({
+ "C13": dict(cat="other", tech="option-forwarding dataflow by interpreting main() linked with the library on an abstract Cli + sibling agreement + parsers for the non-Rust front ends",
+   text="At every generate() call reached by main() in single-file and batch mode (all Option/flag/IO outcomes, five mutator lists) the generator configuration equals the Cli values field by field: protocol (or seed mod 6), seed, opcode range, unsafe/ext/buffer flags unconditionally, mutator list = library expansion of 'all' and create(kind, unsafe), rate through with_mutation_rate when not inert; batch: index space 0..samples, DIR/<idx>.pkl, errors imply a non-zero exit; MutatorKind::create agrees with the clap value names; PyGenerator methods interpreted (set_opcode_range keeps every other field, constructor forwards protocol/seed, 1:1 forwarding); action-run.sh/action.yml/fuzzer.py parsed against the flag table.",
+   note="clap, pyo3, bash, rayon trusted; byte equality then follows from C07/C08", ref="4/C13"),
+})
+
 NA_DEFAULT = "check not built yet (build in progress; see DESIGN.md section 6 build order)"
 NA = {}
 
